@@ -23,6 +23,9 @@ def _one(args):
     meta = os.path.join(workdir, f'meta{idx}')
     env = dict(os.environ)
     env['TRACE'] = path
+    # TLC creates a directory in java.io.tmpdir on every start and leaves it
+    env['JAVA_TOOL_OPTIONS'] = (env.get('JAVA_TOOL_OPTIONS', '') +
+                                ' -Djava.io.tmpdir=' + workdir).strip()
     cmd = ['tlc', '-workers', '1', '-metadir', meta, '-noGenerateSpecTE',
            '-deadlock', '-config', cfg, module]
     t0 = time.time()
